@@ -122,10 +122,16 @@ class Adjoint(Sub):
             _nontrivial(rec, "adj", lt, dtype, Xs[i], As[i], rX[i], ra[i])
             Ad = R.Ad(lt, Xs[i])
             Adi = R.Ad(lt, R.inv(lt, Xs[i]))
-            for nm, y, A in (("Adj", y1n[i], Ad), ("AdjT", y2n[i], Adi)):
+            Xi_inv = R.inv(lt, Xs[i])
+            for nm, y, A, Xa in (("Adj", y1n[i], Ad, Xs[i]), ("AdjT", y2n[i], Adi, Xi_inv)):
                 want = A @ As[i]
                 # row-wise normwise bound: entries of Ad that vanish by cancellation still carry eps*rowmax error
                 tolv = 128 * eps * np.abs(A).max(axis=1) * float(np.abs(As[i]).sum()) + 1e-300
+                if lt in ("SE3", "Sim3"):
+                    # translation rows are R tau + t x (R phi) (- sigma t): an eps-level rounding of the rotation (the
+                    # quaternion is unit only to eps) moves them by eps |t| |a| even where the row of t^R is exactly zero
+                    # (t along an axis) - the reference M hat(a) M^-1 itself carries that error (seen at |t| = 50, thorough tier)
+                    tolv[:3] += 16 * eps * float(np.abs(Xa[:3]).max()) * float(np.abs(As[i]).sum())
                 errv = np.abs(y - want)
                 err, tol = float(errv.max()), float(tolv[int(np.argmax(errv / tolv))])
                 rec.notes["adj"] = max(rec.notes.get("adj", 0), float((errv / tolv).max()))
